@@ -782,6 +782,12 @@ static const char *const pset_tab[] = {
     /*12*/ "matrix[1][2]=x",
     /*13*/ "setup.source=flat",		/* map becomes scalar */
     /*14*/ "k=v",
+    /* inserts and appends above the level at which the call can fail */
+    /*15*/ "setup.notes[+].who.name=nested under an appended slot",
+    /*16*/ "setup.notes[0+][2]=list under an inserted slot",
+    /*17*/ "setup.notes[9+]=inserted beyond the end",
+    /*18*/ "fresh[+][+].k=appended twice into a list that did not exist",
+    /*19*/ "matrix[1][0+]#",
 };
 static const char *const pdel_tab[] = {
     "setup.source.sweep[0]", "setup.notes", "model", "setup.source.", ".",
@@ -1772,9 +1778,9 @@ static void prop_hists(void)
     ADDN(h, s_y_count, 0, 1, "vnaproperty_count");
     ADDN(h, s_y_keys, 0, 0, "vnaproperty_keys");
     ADDN(h, s_y_keys, 0, 1, "vnaproperty_keys");
-    for (int i = 6; i <= 14; ++i)
+    for (int i = 6; i <= 19; ++i)
 	add(h, s_y_set, 0, i, "vnaproperty_set", F_NOCB |
-		((i == 8 || i == 9) ? F_INSERT : 0));
+		((i == 8 || i == 9 || i >= 15) ? F_INSERT : 0));
     ADDN(h, s_y_quote, 0, 1, "vnaproperty_quote_key");
     ADDN(h, s_y_get_subtree, 0, 0, "vnaproperty_get_subtree");
 
@@ -2206,9 +2212,7 @@ static int run_history(hist_t *h, long k1, long k2, obs_t *o, runinfo_t *ri,
 		 * run showed before its next step.
 		 */
 		if ((attempts > 0 || nf > 0) && s + 1 < h->nsteps &&
-			h->pre[s + 1] != NULL && !g_record_pre &&
-			!(st->flags & F_INSERT)) {	/* F_INSERT: the open
-			   finding, judged under its own name at the end */
+			h->pre[s + 1] != NULL && !g_record_pre) {
 		    static obs_t post_obs;
 		    long save_calls = vf_alloc_calls, f1 = vf_alloc_fail_at,
 			 f2 = vf_alloc_fail_at2;
